@@ -137,6 +137,8 @@ MUTANTS = [
     ('compr', COMPR, '                ClauseP::For(f) => {\n                    ifs.reverse();\n                    return Ok((Some(f), ifs));\n                }', '                ClauseP::For(f) => return Ok((Some(f), ifs)),', 'C01.compr.ifs.source_order'),
     ('compr', COMPR, '        ifs.reverse();\n        Ok((None, ifs))', '        Ok((None, ifs))', 'C01.compr.ifs.source_order'),
     ('compr', COMPR, '                    if let ExprCompiledBool::Const(true) = &x.node {', '                    if let ExprCompiledBool::Const(_) = &x.node {', 'C01.compr'),
+    ('spans', PRD, '            let v = self.parse_test()?;\n            entries.push((k, v));\n        }\n        self.expect(&Token::ClosingCurly)?;\n        let r = self.last_end;', '            let v = self.parse_test()?;\n            entries.push((k, v));\n        }\n        let r = l + 1;\n        self.expect(&Token::ClosingCurly)?;', 'dict'),
+    ('spans', PRD, '            let (for_clause, clauses) = self.parse_comp_clauses()?;\n            self.expect(&Token::ClosingCurly)?;\n            let r = self.last_end;', '            let r = self.last_end;\n            let (for_clause, clauses) = self.parse_comp_clauses()?;\n            self.expect(&Token::ClosingCurly)?;', 'dict'),
     ('calls', INSTR, '        eval.with_call_stack(self.to_value(), Some(location), |eval| {\n            self.invoke(args, eval)\n        })', '        self.invoke(args, eval)', 'bc_invoke'),
     ('calls', 'starlark/src/values/layout/value.rs', '        eval.with_call_stack(self, location, |eval| {\n            self.get_ref_full().invoke(args, eval)\n        })', '        self.get_ref_full().invoke(args, eval)', 'invoke_with_loc'),
     ('strindex', STRT, 'let ind = CharIndex(i.unsigned_abs() as usize);', 'let ind = CharIndex((-i) as usize);', 'at'),
